@@ -61,6 +61,14 @@ class Module:
             self.tree = ast.parse(src, filename=rel)
         except SyntaxError as e:  # pragma: no cover
             raise AnalysisError(f"cannot parse {rel}: {e}")
+        self.deextracted = 0
+        self.absorbed: set[str] = set()
+        digest = hashlib.sha256(src.encode("utf-8")).hexdigest()
+        if not os.environ.get("VERIF_NO_DEEXTRACT"):
+            from sa.dename import _ref
+            if (_ref().get(rel) or {}).get("#digest") != digest:
+                from sa.deextract import deextract
+                self.deextracted, self.absorbed = deextract(self.tree, rel)
         self.denamed = 0
         if not os.environ.get("VERIF_NO_DENAME"):
             from sa.dename import dename
@@ -97,6 +105,8 @@ class Module:
         for ch in ast.iter_child_nodes(node):
             if isinstance(ch, (ast.FunctionDef, ast.AsyncFunctionDef)):
                 q = f"{prefix}{ch.name}"
+                if q in self.absorbed:
+                    continue        # a newly extracted helper that was inlined back at every call site (sa/deextract.py)
                 # overloads / redefinitions: keep the last, but also index by suffix #n
                 f = Func(self, q, ch, cls, parent_func)
                 if q in self.funcs:
